@@ -174,13 +174,16 @@ Print Assumptions abi_enc_injective_via_decoder.
 
 (** The arguments eth_txable.go packs for delivery, and for a batch the inputs of submit_batch, are
     typed position by position as the compass ABI JSON shipped in the repository types its inputs;
-    their leaves are the delivered fields the theorems above quantify over; and where the scheme has
+    their leaves are the delivered fields the theorems above quantify over; each sits at the position
+    of the ABI input NAMED for it (message_id, deadline, relayer, gas_estimate, fee_args.relayer_fee,
+    ...: same-typed arguments cannot be swapped unnoticed); and where the scheme has
     the deployment id the signing pre-image is the delivered argument list with the id inserted. *)
 Theorem delivered_arguments_are_the_compass_abi_inputs :
   (forall k, map slot_ty (delivered_slots k) = abi_sig k /\ flatten_all (delivered_slots k) = delivered_fields k) /\
+  (forall k, delivered_slots k = abi_named_slots k) /\
   (forall k, In k [KLogicCall; KDeploy; KBatch] ->
      filter (fun s => match s with SF FTurnstoneId => false | _ => true end) (signed_slots k) = delivered_slots k).
-Proof. exact (conj delivered_slots_match_abi signed_is_delivered_plus_id). Qed.
+Proof. exact (conj delivered_slots_match_abi (conj delivered_slots_are_the_named_inputs signed_is_delivered_plus_id)). Qed.
 Print Assumptions delivered_arguments_are_the_compass_abi_inputs.
 
 (** The precise clause on RAW values.  [raw_value it f] is what VerifyAgainstTX packs: the fees of
